@@ -1137,6 +1137,37 @@ def _distribute_ifexp_call(fn, body_list):
   return changed
 
 
+def _rewrite_reduce(fn, body_list):
+  """T = functools.reduce(lambda acc, x: E, IT, INIT)   ->   T = INIT; for x in IT: T = E[acc := T]"""
+  changed = 0
+  i = 0
+  while i < len(body_list):
+    st = body_list[i]
+    if isinstance(st, ast.Assign) and len(st.targets) == 1 and isinstance(st.targets[0], ast.Name) and isinstance(st.value, ast.Call) \
+        and ast.unparse(st.value.func) in ('functools.reduce', 'reduce') and len(st.value.args) == 3 and not st.value.keywords \
+        and isinstance(st.value.args[0], ast.Lambda) and len(st.value.args[0].args.args) == 2 and fn is not None:
+      lam, it, init = st.value.args
+      acc, x = lam.args.args[0].arg, lam.args.args[1].arg
+      T = st.targets[0].id
+      xn = x
+      inside = {id(n) for n in ast.walk(lam)}
+      if any(isinstance(n, ast.Name) and n.id == x and id(n) not in inside for n in ast.walk(fn)):
+        xn = x + '__r'
+      body = _Subst({acc: ast.Name(id=T, ctx=ast.Load()), x: ast.Name(id=xn, ctx=ast.Load())}, {}).visit(copy.deepcopy(lam.body))
+      a = ast.Assign(targets=[ast.Name(id=T, ctx=ast.Store())], value=init)
+      lp = ast.For(target=ast.Name(id=xn, ctx=ast.Store()), iter=it,
+                   body=[ast.Assign(targets=[ast.Name(id=T, ctx=ast.Store())], value=body)], orelse=[])
+      for n in (a, lp):
+        ast.copy_location(n, st)
+        ast.fix_missing_locations(n)
+      body_list[i:i + 1] = [a, lp]
+      changed += 1
+      i += 2
+      continue
+    i += 1
+  return changed
+
+
 def _unroll_literal_loop(fn, body_list):
   """for v in (E1, E2): BODY   ->   BODY[v:=E1]; BODY[v:=E2]      (few simple elements, small straight-line body)"""
   changed = 0
@@ -1225,6 +1256,7 @@ def loop_forms(tree):
       c += _rewrite_for_genexp(fn, body, noret)
       c += _rewrite_pull_loop(fn, body)
       c += _unroll_literal_loop(fn, body)
+      c += _rewrite_reduce(fn, body)
       c += _distribute_ifexp_call(fn, body)
     n += c
     if not c:
@@ -1979,6 +2011,35 @@ def _rewrite_setdefault_store(body_list):
   return changed
 
 
+def _rewrite_vars_update(body_list):
+  """vars(o).update(a=X, b=Y)  /  o.__dict__.update(a=X, b=Y)    ->   o.a = X; o.b = Y"""
+  changed = 0
+  i = 0
+  while i < len(body_list):
+    st = body_list[i]
+    if isinstance(st, ast.Expr) and isinstance(st.value, ast.Call) and isinstance(st.value.func, ast.Attribute) and st.value.func.attr == 'update' \
+        and not st.value.args and st.value.keywords and all(k.arg for k in st.value.keywords):
+      recv = st.value.func.value
+      obj = None
+      if isinstance(recv, ast.Call) and isinstance(recv.func, ast.Name) and recv.func.id == 'vars' and len(recv.args) == 1 and isinstance(recv.args[0], ast.Name):
+        obj = recv.args[0]
+      elif isinstance(recv, ast.Attribute) and recv.attr == '__dict__' and isinstance(recv.value, ast.Name):
+        obj = recv.value
+      if obj is not None:
+        new = []
+        for k in st.value.keywords:
+          a = ast.Assign(targets=[ast.Attribute(value=ast.Name(id=obj.id, ctx=ast.Load()), attr=k.arg, ctx=ast.Store())], value=k.value)
+          ast.copy_location(a, st)
+          ast.fix_missing_locations(a)
+          new.append(a)
+        body_list[i:i + 1] = new
+        changed += 1
+        i += len(new)
+        continue
+    i += 1
+  return changed
+
+
 def _drop_dead_code(body_list):
   """Statements after an unconditional raise / return / break / continue never run."""
   for i, st in enumerate(body_list):
@@ -2055,6 +2116,7 @@ def idioms(tree):
       c += _rewrite_inplace_sort(body)
       c += _rewrite_nested_if(body)
       c += _drop_dead_code(body)
+      c += _rewrite_vars_update(body)
       c += _rewrite_setdefault_store(body)
       c += _rewrite_result_var(body)
     n += c
